@@ -242,7 +242,11 @@ class Scrollable(WidgetDecoration[WrappedWidget]):
             # Canvas is small enough to fit without trimming
             return canv
 
+        old_trim_top = self._trim_top
         self._adjust_trim_top(canv, size)
+        if self._trim_top != old_trim_top:
+            # the scroll position is shared by all sizes: canvases cached for other sizes show the old one
+            self._invalidate()
 
         # Trim canvas if necessary
         trim_top = self._trim_top
